@@ -93,7 +93,7 @@ func (e *Element[T]) Previous() *Element[T] { return e.prev }
 // elements hold a pointer to their list, this is an O(1) operation.
 //
 // Returns false when the element is nil.
-func (e *Element[T]) In(l *List[T]) bool { return e.list != nil && e.list == l }
+func (e *Element[T]) In(l *List[T]) bool { return e != nil && e.list != nil && e.list == l }
 
 // Set allows you to change set the value of an item in place. Returns
 // true if the operation is successful. The operation fails if the Element is the
